@@ -690,6 +690,55 @@ example : (match RT.step exRTCfg { exRTState2 with tape := [] } exRTActs with
     | .error _ => false) = true := by
   decide +kernel
 
+/-! ## C03 / C02: stored positions of inactive agents stay inside the grid -/
+
+/-- **every agent's stored position is a grid cell, in every reachable state** — active, dead or deactivated by hand:
+after ANY history as in `reach_reachable_WInvWeak` (once a reset has returned), `agent.position` of every agent of the
+simulation lies inside the grid.  (`WInvWeak` says so for ACTIVE agents only; an agent that is killed or taken off the grid
+keeps the position it had: `RT.processAttack_pos`, `RT.takeOff_pos` — no component call of `step` writes the position of an
+inactive agent, and `reset` places everybody anew.) -/
+theorem reach_inactive_positions_in_grid (cfg : RT.Cfg) (w0 : World) (hcfg : CfgOK w0) (hfresh : w0.vitalsAlive = true)
+    (t0 : Tape) (ops : List Ex.EOp) (hops : ∀ op ∈ ops, RT.OpOK cfg w0 op) :
+    let s := (RT.runOps cfg { w := w0, tape := t0 } ops).2
+    s.rewards.isSome = true → ∀ a < w0.n, s.w.inGrid (s.w.stOf a).pos = true := by
+  intro s hs a ha
+  have hG : RT.GoodH cfg w0 s := RT.reachable_goodH cfg w0 hcfg hfresh t0 ops hops
+  unfold RT.GoodH at hG
+  cases hr : s.rewards with
+  | none => rw [hr] at hs; cases hs
+  | some r =>
+    rw [hr] at hG
+    exact hG.2.2.2 a (by rw [sframe_n hG.2.1]; exact ha)
+
+/-- **observations of EVERY agent lie in the declared space, in every reachable state**: `reach_observations_in_space`
+without its hypothesis on the agent (active, or stored position inside the grid) — discharged by
+`reach_inactive_positions_in_grid` -/
+theorem reach_observations_in_space_all (cfg : RT.Cfg) (w0 : World) (hcfg : CfgOK w0) (hfresh : w0.vitalsAlive = true)
+    (t0 : Tape) (ops : List Ex.EOp) (hops : ∀ op ∈ ops, RT.OpOK cfg w0 op)
+    (henc : ∀ b < w0.n, 0 < w0.encOf b) (hammo : ∀ b < w0.n, 0 ≤ (w0.cfgOf b).initAmmo) (a : Aid) (ha : a < w0.n) :
+    let s := (RT.runOps cfg { w := w0, tape := t0 } ops).2
+    s.rewards.isSome = true →
+    ∀ t, ∃ o s', Ex.getObs cfg.toEx { s with tape := t } a = .ok (o, s') ∧
+      ∀ p ∈ o, p.1 = "position_centered_encoding" ∧
+        Observers.declared s.w a (.centered cfg.observeSelf) p.2 = true := by
+  intro s hs t
+  exact reach_observations_in_space cfg w0 hcfg hfresh t0 ops hops henc hammo a ha hs
+    (Or.inr (reach_inactive_positions_in_grid cfg w0 hcfg hfresh t0 ops hops hs a ha)) t
+
+/-- inhabited and not vacuous: in `exRTState2` runner 1 is inactive (taken off the grid by hand), in no cell, and its stored
+position is the target's cell -/
+example : (exRTState2.w.stOf 1).active = false ∧ exRTState2.w.cells = [[], [2], [0]] ∧
+    (exRTState2.w.stOf 1).pos = (0, 1) ∧
+    ∀ a < exRTWorld2.n, exRTState2.w.inGrid (exRTState2.w.stOf a).pos = true :=
+  ⟨by decide +kernel, by decide +kernel, by decide +kernel,
+   reach_inactive_positions_in_grid exRTCfg exRTWorld2 ((cfgOKb_iff _).mp (by decide +kernel)) (by decide +kernel) [] exRTOps
+    (fun op hop => by
+      simp only [exRTOps, List.mem_cons, List.mem_nil_iff, or_false] at hop
+      rcases hop with rfl | rfl
+      · exact Ex.resetOK_of_b (by decide +kernel)
+      · trivial)
+    (by decide +kernel)⟩
+
 /-- the manager theorems are inhabited: a turn-based run over `exRTWorld2` -/
 example : specC01 .turnBased 3 exRTCfg.isLearning false
     (runOps (RT.toSimIface exRTCfg 3) .turnBased (mgrInit ({ w := exRTWorld2 } : Ex.St) false [])
